@@ -58,6 +58,9 @@ type InputRec struct {
 	Name  string `json:"name"`
 	Label string `json:"label"`
 	W     uint8  `json:"w"`
+	// Internal inputs are created by intrinsics (e.g. crypto/rand bytes), not by a vf* call: the native
+	// replay never reads them from the vector, so they are left out of it.
+	Internal bool `json:"internal,omitempty"`
 }
 
 type Observation struct {
